@@ -116,6 +116,20 @@ def run_twice(n=6, tag="determinism"):
     # ... and the output for a text does not depend on which other text the process compiled before: every program is
     # compiled after a sibling of itself (same length, the scalars inside its annotations and string literals changed -
     # the worst case for anything remembered by position) and compared with a process that compiled only it
+    # ... nor on what the target file held before: compiled over a longer document of another program, the target has
+    # exactly the bytes it gets in a fresh directory
+    over = os.path.join(rdir, "over-an-older-target")
+    longer = "# an older, much longer document\n" + "x: y\n" * 3000
+    for name in ("refs-and-recursion", "examples-annotation"):
+        src = PROGRAMS.get(name)
+        if not src:
+            continue
+        # same directory both times: generated component names hash the module's locator
+        fresh = run_cli(cli, {"main.oal": src}, workdir=os.path.join(over, name))
+        again = run_cli(cli, {"main.oal": src}, workdir=os.path.join(over, name), pre_target=longer)
+        detail["over-an-older-target-" + name] = {"same": fresh["target"] == again["target"], "rc": [fresh["rc"], again["rc"]]}
+        if fresh["rc"] != 0 or again["rc"] != 0 or fresh["target"] != again["target"]:
+            diffs.append("%s: the bytes of the target depend on what the file held before the run" % name)
     nsib = 0
     for name, src in progs.items():
         if isinstance(src, dict):
@@ -374,6 +388,18 @@ def check():
     # witness against vacuity: the seeded list is able to see a hash iteration at all
     probe = [f for M in allmods for f in M.funcs if any(b.term and SEEDED.search(b.term) for b in f.blocks.values())]
     o.extra["functions_with_a_seeded_primitive_anywhere"] = [f.short for f in probe][:12]
+    # the last step of a CLI run: what ends up in the target is exactly the document, whatever the file held before
+    # (lemma shared with C13) - otherwise the bytes of "the emitted YAML" depend on an earlier run
+    fbad = []
+    try:
+        import props.c13 as c13
+        c13.file_content_lemma(o, L, mirlib.module("oal-client"), fbad, lambda name, model: fbad.append(name))
+    except Exception as exn:
+        o.inconc("write_file lemma: %s" % str(exn)[:120])
+    if fbad:
+        entry_dep = entry_dep + ["write_file"]
+        dependent["write_file"] = "the target file keeps part of what it held before the run (%s)" % fbad[0][:100]
+        chain = chain + ["write_file"]
     o.samples = [{"query": q["name"], "verdict": q["verdict"]} for q in o.queries[:12]]
     if True:   # the real-binary oracle is cheap: always run it (replay of a dependent entry point, or translator validation)
         diffs, rdir, detail = run_twice(8 if tier() == "thorough" else 6)
